@@ -32,7 +32,8 @@ Judges (they read only the REAL scheduler's observations, the recorded op list a
   `flow-wait-resurrected` (the flag is up again AND it went down while the task was pooled - which only a flow
   merge does - or the committed row of the task's flows said flow_wait all along: the restart read a stale row),
   `set-db-row-missing` (a pooled task is gone AND the database had no row of exactly its flows; finding of C29),
-  `manual-trigger-not-persisted` (is_manual_submit was up and is down).
+  `manual-trigger-not-persisted` (is_manual_submit was up and is down), `prereq-row-shared` (only atoms that occur in
+  several prerequisite expressions of the task with DIFFERENT satisfaction changed).
   Any other failure is reported first.
 -/
 import CylcModel.Sched3SetObs
@@ -323,6 +324,27 @@ def judgeRestart (idx : Nat) (hist : List Json) (b a : Json) (later : List (Json
         else []
       let c6 : List Fail :=
         if fld u "pre" != fld t "pre" then
+          -- the task_prerequisites table has ONE row per (task, upstream output): an atom that occurs in several
+          -- prerequisite expressions of the task with different satisfaction comes back with one value everywhere
+          let atomsOf (j : Json) : List (Json × Json) :=
+            ((jArr? j).getD []).flatMap fun pr => ((jArr? pr).getD []).filterMap fun a =>
+              match jArr? a with
+              | some [p, n, o, v] => some (Json.arr #[p, n, o], v)
+              | _ => none
+          let before := atomsOf (fld t "pre")
+          let after := atomsOf (fld u "pre")
+          let mixed (key : Json) : Bool :=
+            (before.any fun e => e.1 == key && e.2 == Json.bool true) &&
+            (before.any fun e => e.1 == key && e.2 == Json.bool false)
+          let cnt (l : List (Json × Json)) (key : Json) (v : Option Json) : Nat :=
+            (l.filter fun e => e.1 == key && (match v with | some x => e.2 == x | none => true)).length
+          -- (the observation lists the expressions sorted, so they are compared per atom, not by position)
+          let onlyShared := before.length == after.length && (before ++ after).all fun e =>
+            cnt before e.1 none == cnt after e.1 none &&
+            (mixed e.1 || cnt before e.1 (some (Json.bool true)) == cnt after e.1 (some (Json.bool true)))
+          if onlyShared then
+            [⟨true, s!"prereq-row-shared: {at_}: {showKey k} has an upstream output in several prerequisite expressions with different satisfaction {(fld t "pre").compress}; restored with one value for all of them {(fld u "pre").compress}"⟩]
+          else
           [⟨false, s!"prereqs: {at_}: {showKey k} prerequisite satisfaction {(fld t "pre").compress} restored as {(fld u "pre").compress}"⟩]
         else []
       let c7 : List Fail :=
